@@ -18,3 +18,21 @@ Definition empty_string_st (segs : list (list Z)) : bool :=
   negb (items_eqb (spec_parse_segments true segs) (spec_parse_segments false segs)).
 Definition c02_known (cases : list pcase) : list Z :=
   bad_indices (fun c => empty_string_st (fst c) && items_eqb (spec_parse_segments false (fst c)) (snd c)) cases.
+
+(* ---- C08 ---- *)
+Definition is_eof_b (i : item) : bool := match i with IEof => true | _ => false end.
+(* exactly one end marker, as the last item *)
+Fixpoint one_eof_last_b (l : list item) : bool :=
+  match l with
+  | [] => false
+  | [x] => is_eof_b x
+  | x :: t => negb (is_eof_b x) && one_eof_last_b t
+  end.
+
+Definition c08_mismatches (cases : list pcase) : list Z :=
+  bad_indices (fun c => negb (items_eqb (parse_segments (fst c)) (snd c))) cases.
+(* lifecycle + Escape timing: one end marker last, and what is delivered (including where the
+   Escape key appears) is what the reference machine with its timer delivers *)
+Definition c08_holds (c : pcase) : bool :=
+  one_eof_last_b (snd c) && items_eqb (spec_parse_segments false (fst c)) (snd c).
+Definition c08_violations (cases : list pcase) : list Z := bad_indices (fun c => negb (c08_holds c)) cases.
